@@ -856,6 +856,33 @@ func fieldScanner(c *core.Ctx) *ssa.Function {
 	if n != 1 {
 		found = nil
 	}
+	// the scan starts where the definition's constructor calls into it: the callee of NewMeta that reaches the
+	// appending function (the append itself may sit in a helper of the scan)
+	if found != nil {
+		if nm := c.Func("component_definition", "NewMeta"); nm != nil {
+			var entries []*ssa.Function
+			for _, ci := range core.Calls(nm) {
+				cal := ci.Common().StaticCallee()
+				if cal == nil || !c.InScope(cal) || core.PkgOf(cal) != core.PkgOf(nm) {
+					continue
+				}
+				reach := map[*ssa.Function]bool{}
+				reachesCall(cal, func(*ssa.CallCommon) bool { return false }, reach)
+				if cal == found || reach[found] {
+					dup := false
+					for _, e := range entries {
+						dup = dup || e == cal
+					}
+					if !dup {
+						entries = append(entries, cal)
+					}
+				}
+			}
+			if len(entries) == 1 {
+				found = entries[0]
+			}
+		}
+	}
 	c.Memo.Store("field-scanner", found)
 	return found
 }
